@@ -71,10 +71,11 @@ def expect(op, tool_on, coolant_on):
 
 
 class C02System(BuilderSystem):
-    def __init__(self, halts, bounds=False):
+    def __init__(self, halts, bounds=False, full_canon=True):
         self.halts = halts
         self.cfg = {}
         self.bounds = bounds
+        self.full_canon = full_canon
 
     def setup(self, st):
         if self.bounds:
@@ -99,6 +100,10 @@ class C02System(BuilderSystem):
             ["move", [], {"x": 1}], ["rapid", [], {"x": 0, "S": 1000}],
             ["set_distance_mode", ["relative"]], ["set_bed_temperature", [50]],
             ["set_feed_rate", [100]], ["set_tool_power", [50]], ["sleep", [1]], ["query", ["position"]],
+            # unit / table selectors: every variant of a non-halting command must stay non-halting
+            ["set_temperature_units", ["kelvin"]], ["set_temperature_units", ["celsius"]],
+            ["set_hotend_temperature", [200]], ["set_chamber_temperature", [40]], ["set_time_units", ["ms"]],
+            ["set_fan_speed", [128]], ["query", ["temperature"]], ["set_length_units", ["in"]], ["set_plane", ["yz"]],
             # zero is a legal power and feed: the tool keeps running at S0 (laser travel moves)
             ["set_tool_power", [0]], ["move", [], {"y": 1, "S": 0}], ["set_feed_rate", [0]],
             # argument-invalid variants
@@ -157,7 +162,7 @@ class C02System(BuilderSystem):
         return (s.is_tool_active, s.is_coolant_active, str(s.spin_mode), str(s.power_mode), str(s.coolant_mode),
                 s.tool_number, str(s.tool_swap_mode), rf(s.tool_power), str(s.halt_mode), str(s.distance_mode),
                 str(st.g.distance_mode), m.tool_on, m.coolant, m.tool_code, m.relative,
-                rf(s.feed_rate), rf(s.target_bed_temperature))
+                str(s.temperature_units)) + ((rf(s.feed_rate), rf(s.target_bed_temperature), str(s.time_units)) if self.full_canon else ())
 
     def outcome(self, st):
         return (tuple(tuple(i["codes"]) for i in st.last_infos), type(st.last_exc).__name__ if st.last_exc else None)
@@ -180,7 +185,8 @@ ASSUMPTIONS = [
 
 def systems(tier):
     if tier == "quick":
-        return [("interlocks-quick", C02System(ALL_HALTS), 40, None)]
+        # quick merges states that differ only in feed rate / bed temperature / time units (thorough keeps them apart)
+        return [("interlocks-quick", C02System(ALL_HALTS, full_canon=False), 40, None)]
     return [("interlocks-thorough", C02System(ALL_HALTS), 60, None),
             ("interlocks-wide-bounds-thorough", C02System(ALL_HALTS, bounds=True), 60, None)]
 
